@@ -141,7 +141,8 @@ type node struct {
 	cond *cond
 	els  []*node
 
-	srcs []string
+	srcs    []string
+	srcDigs []*sval // scan: one digit of each recoding tested
 
 	callee string
 	args   []string
@@ -163,6 +164,12 @@ type knowledge struct {
 	scalarT    *types.TypeName
 	globals    map[types.Object]string // frozen roles of package-level tables
 	missing    []string
+	// keep lists the callees that stay delegation events (`call f(roles)`):
+	// dispatchers, members of (vector, generic) pairs, routines with their own
+	// skeleton, table constructors.  Every other small unexported helper of
+	// package curve is inlined into the skeleton of its caller, so extracting a
+	// few statements into a helper does not change the normal form.
+	keep map[*types.Func]bool
 }
 
 // pointTypeNames is the frozen list of point representations of package
@@ -381,6 +388,10 @@ type extractor struct {
 	inline   int
 	retVal   *sval
 	retSet   bool
+	retVals  []*sval        // all results of the last return of an inlined body
+	multiRet []*sval        // results of the last inlined call (for a, b := helper())
+	stack    []*types.Func  // helpers being inlined (no recursion)
+	named    []types.Object // named results of the helper being inlined
 	nscan    int
 }
 
@@ -869,6 +880,11 @@ func (x *extractor) evCall(call *ast.CallExpr) *sval {
 	if sel, ok := unparen(call.Fun).(*ast.SelectorExpr); ok && recvNamed(f) != nil {
 		recvE = sel.X
 	}
+	if cls == "call" || cls == "pointother" {
+		if decl := x.inlinable(f); decl != nil {
+			return x.inlineFunc(f, decl, recvE, call)
+		}
+	}
 	switch cls {
 	case "recode":
 		src := x.ev(recvE)
@@ -1004,7 +1020,7 @@ func (x *extractor) describeArg(v *sval) string {
 func (x *extractor) pointRole(pl *place) string {
 	r := x.roleOf(pl.root)
 	if pl.elem {
-		r += "[]"
+		r = "each(" + r + ")"
 	}
 	return r
 }
@@ -1014,7 +1030,7 @@ func (x *extractor) evBuiltin(name string, call *ast.CallExpr) *sval {
 	case "len":
 		v := x.ev(call.Args[0])
 		if v.k == svVec {
-			return &sval{k: svInt, n: x.lenAtom(v.role)}
+			return &sval{k: svInt, n: x.lenOf(call.Args[0], v)}
 		}
 		return &sval{}
 	case "make":
@@ -1115,12 +1131,133 @@ func (x *extractor) inlineClosure(lit *ast.FuncLit, call *ast.CallExpr) *sval {
 		}
 	}
 	x.inline++
-	oldRet, oldSet := x.retVal, x.retSet
-	x.retVal, x.retSet = nil, false
+	oldRet, oldSet, oldVals, oldNamed := x.retVal, x.retSet, x.retVals, x.named
+	x.retVal, x.retSet, x.retVals, x.named = nil, false, nil, nil
 	x.stmts(lit.Body.List)
 	rv := x.retVal
-	x.retVal, x.retSet = oldRet, oldSet
+	x.multiRet = x.retVals
+	x.retVal, x.retSet, x.retVals, x.named = oldRet, oldSet, oldVals, oldNamed
 	x.inline--
+	if rv == nil {
+		return &sval{}
+	}
+	return rv
+}
+
+// inlinable returns the declaration of f if a call of f is to be inlined into
+// the skeleton of the caller: a small unexported function or method of the
+// same package with a Go body, not recursive, whose only return statement (if
+// any) is its last statement, and that is not a delegation target (kn.keep).
+func (x *extractor) inlinable(f *types.Func) *ast.FuncDecl {
+	if f == nil || f.Exported() || x.kn.keep[f] || x.inline >= 3 || f.Pkg() != x.fn.Pkg() {
+		return nil
+	}
+	for _, g := range x.stack {
+		if g == f {
+			return nil
+		}
+	}
+	if sig := f.Type().(*types.Signature); sig.Variadic() {
+		return nil
+	}
+	decl := x.kn.p.FuncDecl(f)
+	if decl == nil || decl.Body == nil {
+		return nil
+	}
+	ok, count := true, 0
+	var last ast.Stmt
+	if n := len(decl.Body.List); n > 0 {
+		last = decl.Body.List[n-1]
+	}
+	ast.Inspect(decl.Body, func(n ast.Node) bool {
+		switch n := n.(type) {
+		case *ast.FuncLit:
+			return false
+		case *ast.DeferStmt, *ast.GoStmt, *ast.SelectStmt, *ast.LabeledStmt:
+			ok = false
+		case *ast.BranchStmt:
+			if n.Tok == token.GOTO || n.Label != nil {
+				ok = false
+			}
+		case *ast.ReturnStmt:
+			if ast.Stmt(n) != last {
+				ok = false // an early return: the rest of the body is conditional
+			}
+		}
+		if _, isStmt := n.(ast.Stmt); isStmt {
+			count++
+		}
+		return ok
+	})
+	if !ok || count > 60 {
+		return nil
+	}
+	return decl
+}
+
+// inlineFunc walks the body of a helper in place of its call: parameters are
+// bound to the abstract values of the arguments, the events of the body go to
+// the caller's skeleton, the results are the values of its final return.
+func (x *extractor) inlineFunc(f *types.Func, decl *ast.FuncDecl, recvE ast.Expr, call *ast.CallExpr) *sval {
+	var vals []*sval
+	for _, a := range call.Args {
+		vals = append(vals, x.ev(a))
+	}
+	if decl.Recv != nil && len(decl.Recv.List) == 1 {
+		var rv *sval
+		if recvE != nil {
+			rv = x.ev(recvE)
+		}
+		for _, n := range decl.Recv.List[0].Names {
+			if o := x.info.Defs[n]; o != nil && rv != nil {
+				x.env[o] = rv
+				x.declAt[o] = x.depth
+			}
+		}
+	}
+	i := 0
+	for _, fl := range decl.Type.Params.List {
+		for _, n := range fl.Names {
+			if o := x.info.Defs[n]; o != nil && i < len(vals) {
+				x.env[o] = vals[i]
+				x.declAt[o] = x.depth
+			}
+			i++
+		}
+		if len(fl.Names) == 0 {
+			i++
+		}
+	}
+	var named []types.Object
+	if decl.Type.Results != nil {
+		for _, fl := range decl.Type.Results.List {
+			for _, n := range fl.Names {
+				if o := x.info.Defs[n]; o != nil {
+					named = append(named, o)
+					x.declAt[o] = x.depth
+					if b, ok := o.Type().Underlying().(*types.Basic); ok && b.Info()&types.IsInteger != 0 {
+						x.env[o] = &sval{k: svInt, n: konst(0)}
+					}
+				}
+			}
+		}
+	}
+	x.inline++
+	x.stack = append(x.stack, f)
+	oldRet, oldSet, oldVals, oldNamed := x.retVal, x.retSet, x.retVals, x.named
+	x.retVal, x.retSet, x.retVals, x.named = nil, false, nil, named
+	x.stmts(decl.Body.List)
+	rv, rvs := x.retVal, x.retVals
+	if rv == nil && len(named) > 0 {
+		for _, o := range named {
+			rvs = append(rvs, x.lookupObj(o))
+		}
+		rv = rvs[0]
+	}
+	x.retVal, x.retSet, x.retVals, x.named = oldRet, oldSet, oldVals, oldNamed
+	x.stack = x.stack[:len(x.stack)-1]
+	x.inline--
+	x.multiRet = rvs
 	if rv == nil {
 		return &sval{}
 	}
@@ -1333,6 +1470,8 @@ func (x *extractor) assign(lhs ast.Expr, v *sval, define bool, pos token.Pos) {
 		}
 		if v.k == svVec && v.n != nil {
 			x.makes[o] = v.n
+		} else {
+			delete(x.makes, o) // appended to / replaced: the length is no longer the made count
 		}
 		if v.k == svUnknown {
 			// keep what the type tells
@@ -1431,11 +1570,18 @@ func (x *extractor) stmt(s ast.Stmt) {
 					x.assign(l, vals[i], s.Tok == token.DEFINE, s.Pos())
 				}
 			} else {
+				var rets []*sval
 				for _, r := range s.Rhs {
+					x.multiRet = nil
 					x.ev(r)
+					rets = x.multiRet
 				}
-				for _, l := range s.Lhs {
-					x.assign(l, &sval{}, s.Tok == token.DEFINE, s.Pos())
+				for i, l := range s.Lhs {
+					v := &sval{}
+					if len(s.Rhs) == 1 && len(rets) == len(s.Lhs) && rets[i] != nil {
+						v = rets[i] // a, b := helper(...) with an inlined helper
+					}
+					x.assign(l, v, s.Tok == token.DEFINE, s.Pos())
 				}
 			}
 		default: // op-assignment on an integer
@@ -1469,9 +1615,22 @@ func (x *extractor) stmt(s ast.Stmt) {
 	case *ast.BlockStmt:
 		x.stmts(s.List)
 	case *ast.ReturnStmt:
+		if len(s.Results) == 0 && x.inline > 0 && len(x.named) > 0 {
+			// bare return of named results
+			x.retVals = nil
+			for _, o := range x.named {
+				x.retVals = append(x.retVals, x.lookupObj(o))
+			}
+			x.retVal, x.retSet = x.retVals[0], true
+			return
+		}
 		if len(s.Results) >= 1 {
 			v := x.ev(s.Results[0])
 			if x.inline > 0 {
+				x.retVals = []*sval{v}
+				for _, r := range s.Results[1:] {
+					x.retVals = append(x.retVals, x.ev(r))
+				}
 				x.retVal, x.retSet = v, true
 				return
 			}
@@ -1586,6 +1745,17 @@ func (x *extractor) lenAtom(role string) *lin {
 	return x.sym.atomLin(x.sym.fresh("len", role))
 }
 
+// lenOf is the length of the slice e (abstract value v): the element count it
+// was made with, or the symbol len(role).
+func (x *extractor) lenOf(e ast.Expr, v *sval) *lin {
+	if id, ok := unparen(e).(*ast.Ident); ok {
+		if n, ok := x.makes[objOf(x.info, id)]; ok && n != nil {
+			return n
+		}
+	}
+	return x.lenAtom(v.role)
+}
+
 // index gives the abstract value of base[idx]; baseE is the indexed expression.
 // `for i, v := range s` binds v to index(s, i), so that the range form and the
 // counted form `for i := 0; i < len(s); i++ { v := s[i] }` denote the same
@@ -1659,7 +1829,7 @@ func (x *extractor) rangeStmt(s *ast.RangeStmt) {
 		if role == "" {
 			role = "?"
 		}
-		to = x.lenAtom(role).addConst(-1)
+		to = x.lenOf(s.X, over).addConst(-1)
 	default:
 		// range over a local array (for i := range Ai): its length is a constant
 		if t := x.info.Types[s.X].Type; t != nil {
@@ -1846,6 +2016,9 @@ func (x *extractor) forStmt(s *ast.ForStmt) {
 	body := x.collect(func() { x.stmts(s.Body.List) })
 	x.depth--
 	x.emit(&node{kind: "loop", pos: s.Pos(), v: at.id, from: from, to: to, step: step, excl: excl, body: body})
+	if as, isAs := s.Init.(*ast.AssignStmt); isAs && as.Tok == token.ASSIGN {
+		x.env[o] = &sval{} // a counter declared outside the loop: its final value is not tracked
+	}
 }
 
 // foreverStmt handles `for { body; if v == E { break }; v-- }` (and v++): a
@@ -2008,23 +2181,23 @@ func (x *extractor) scanLoop(s *ast.ForStmt, j types.Object, from, to *lin, step
 		x.env[target] = x.env[j]
 	}
 	var srcs []string
+	var srcRecs []*sval
 	okCond := true
-	var walk func(e ast.Expr)
-	walk = func(e ast.Expr) {
-		e = unparen(e)
-		if be, ok := e.(*ast.BinaryExpr); ok && be.Op == token.LOR {
-			walk(be.X)
-			walk(be.Y)
-			return
-		}
-		c := x.evCond(e)
-		if c.kind != "dig" || c.rel != "!=0" || c.not || c.dig.pos == nil || !c.dig.pos.equal(x.sym.atomLin(at)) {
-			okCond = false
-			return
-		}
-		srcs = append(srcs, x.digitSrcKey(c.dig))
+	// in condition normal form: a disjunction of  digit@j != 0  literals
+	// (`a != 0 || b != 0`, `!(a == 0 && b == 0)`, `b != 0 || a != 0`, ...)
+	c := x.evCond(test.Cond)
+	lits := []*cond{c}
+	if c.kind == "or" {
+		lits = c.sub
 	}
-	walk(test.Cond)
+	for _, l := range lits {
+		if l.kind != "dig" || l.rel != "!=0" || l.dig.pos == nil || !l.dig.pos.equal(x.sym.atomLin(at)) {
+			okCond = false
+			break
+		}
+		srcs = append(srcs, x.digitSrcKey(l.dig))
+		srcRecs = append(srcRecs, l.dig)
+	}
 	x.env[j] = saveJ
 	if !okCond || len(srcs) == 0 {
 		x.env[target] = saveT
@@ -2044,7 +2217,7 @@ func (x *extractor) scanLoop(s *ast.ForStmt, j types.Object, from, to *lin, step
 	top := x.sym.fresh("top", strings.Join(srcs, ","))
 	x.env[target] = &sval{k: svInt, n: x.sym.atomLin(top)}
 	x.declAt[target] = x.depth
-	x.emit(&node{kind: "scan", pos: s.Pos(), from: from, to: to, srcs: srcs, v: top.id})
+	x.emit(&node{kind: "scan", pos: s.Pos(), from: from, to: to, srcs: srcs, srcDigs: srcRecs, v: top.id})
 	return true
 }
 
